@@ -274,9 +274,13 @@ func runConc(p *concParams, prefix []int, extra func(w *harness.World, cr *concR
 						// "S<op>": the same write with WriteOptions.Sync
 						t = t[1:]
 						wo = &opt.WriteOptions{Sync: true}
+					} else if len(t) > 1 && t[0] == 'N' {
+						// "N<op>": the same write with WriteOptions.NoWriteMerge (it neither leads nor joins a group)
+						t = t[1:]
+						wo = &opt.WriteOptions{NoWriteMerge: true}
 					}
 					durable := func(b model.Batch, call int64, err error) {
-						if err == nil && (wo != nil || t == "tr" || t == "trq") {
+						if err == nil && ((wo != nil && wo.Sync) || t == "tr" || t == "trq") {
 							vsched.Event(vsched.OpStorage, vsched.ObjStorage, false)
 							cr.Dur = append(cr.Dur, durRec{Batch: b, Call: call, Return: clock, AckPos: len(w.Stor.Ops)})
 						}
@@ -362,9 +366,13 @@ func runConc(p *concParams, prefix []int, extra func(w *harness.World, cr *concR
 						}
 						record(ci, linInput{Kind: "write", Batch: mb}, call, linOutput{Err: errStr(err)}, op)
 						durable(mb, call, err)
-					case "get":
+					case "get", "getnf":
 						call := tick()
-						v, e := getVal(db.Get([]byte(arg), nil))
+						var ro *opt.ReadOptions
+						if t == "getnf" {
+							ro = &opt.ReadOptions{DontFillCache: true}
+						}
+						v, e := getVal(db.Get([]byte(arg), ro))
 						record(ci, linInput{Kind: "get", Keys: []string{arg}}, call, linOutput{Vals: []string{v}, Err: e}, op)
 					case "has":
 						call := tick()
